@@ -79,4 +79,12 @@ def ref_design(test, adm, addC, addL, w, taus, X):
     # column-equilibrated condition number: what limits the accuracy of the fitted immittance
     nrm = np.linalg.norm(A, axis=0)
     nrm[nrm == 0] = 1
-    return float(np.linalg.cond(A / nrm)), float(np.linalg.cond(A))
+    ce, cr = float(np.linalg.cond(A / nrm)), float(np.linalg.cond(A))
+    if t == "real":
+        # second stage of the real tests: the series/parallel inductance (always) and capacitance (if requested) are fitted to the
+        # imaginary part with the raw columns w and 1/w; pinv/lstsq truncate relative to the largest singular value, so the raw
+        # condition number of this two-column system limits the accuracy as well (it grows with the square of a frequency factor)
+        c2 = ([w if adm else -1 / w] if addC else []) + [1 / w if adm else w]
+        A2 = np.array(c2).T / abs(X)[:, None]
+        cr = max(cr, float(np.linalg.cond(A2)))
+    return ce, cr
